@@ -18,7 +18,8 @@
 //	put <series> <t> <v> <ooo:0|1>                                     -> ok | <error class>
 //	maint compact | maint ooo | maint head <mint> <maxt>               -> started
 //	step <point>|blocked:<which>|done:<err>|nomaint [<Bk>] new=<id:mint:maxt:i|o:parents,…|->
-//	     -> hmin=… flag=… trunc=… lastgc=… ooogc=… omin=… loaded=… disk=…
+//	     -> hmin=… flag=… trunc=… lastgc=… ooogc=… omin=… omax=… loaded=… disk=…
+//	        (omin/omax = Head.MinOOOTime()/MaxOOOTime(), the published bounds DB.Querier tests a range against)
 //	open <q> <mint> <maxt> -> ok ;  read <q> -> s<i>=t:v,t:v;… ;  close <q> -> ok
 package main
 
@@ -351,9 +352,9 @@ func (e *env) summary(disk []string) string {
 		}
 		return 0
 	}
-	return fmt.Sprintf("hmin=%d flag=%d trunc=%d lastgc=%d ooogc=%d omin=%d loaded=%s disk=%s",
+	return fmt.Sprintf("hmin=%d flag=%d trunc=%d lastgc=%d ooogc=%d omin=%d omax=%d loaded=%s disk=%s",
 		st.HeadMinTime, b2i(st.TruncationRunning), st.TruncationTime, b2i(st.LastGCRefSet), b2i(st.MinOOOMmapRefSet),
-		st.MinOOOTime, join(sortIDs(loaded)), join(disk))
+		st.MinOOOTime, st.MaxOOOTime, join(sortIDs(loaded)), join(disk))
 }
 
 // doStep executes one step and returns (op line, output line).
@@ -585,6 +586,12 @@ type gen struct {
 	held []heldQ
 	fine bool
 	pts  map[string]bool
+	// bands: the time ranges of the out-of-order bursts (one per future OOO chunk) and narrow ranges next
+	// to them; queries are drawn around them (a range lying entirely below/above the published OOO bounds
+	// skips the OOO head reader)
+	bands [][2]int64
+	// directed: at every position each band is queried (no held queries)
+	directed bool
 }
 
 type heldQ struct {
@@ -622,6 +629,10 @@ func (g *gen) qrange() (int64, int64, string) {
 		b = (st.HeadMinTime/g.R)*g.R + g.R
 	}
 	var lo, hi int64
+	if len(g.bands) > 0 && g.r.Chance(35) {
+		lo, hi = g.bandRange(g.bands[g.r.Intn(len(g.bands))])
+		return lo, hi, "oooband"
+	}
 	switch g.r.Intn(7) {
 	case 0: // everything
 		lo, hi = g.dmin-5, g.dmax+5
@@ -654,6 +665,38 @@ func (g *gen) qrange() (int64, int64, string) {
 	return lo, hi, cls
 }
 
+// bandRange draws a narrow range around one out-of-order burst [b0,b1].
+func (g *gen) bandRange(b [2]int64) (int64, int64) {
+	d := []int64{0, 0, 1, 4, 5, 6, 11}
+	switch g.r.Intn(6) {
+	case 0: // exactly the burst
+		return b[0], b[1]
+	case 1: // one timestamp of it
+		t := b[0] + g.r.Range(0, (b[1]-b[0])/10)*10
+		return t, t
+	case 2: // just below it (in-order samples only)
+		return b[0] - 1 - h.PickI64(g.r, d) - g.r.Range(0, 40), b[0] - 1
+	case 3: // its lower / upper half
+		m := b[0] + (b[1]-b[0])/2
+		if g.r.Chance(50) {
+			return b[0] - h.PickI64(g.r, d), m
+		}
+		return m, b[1] + h.PickI64(g.r, d)
+	default:
+		return b[0] - h.PickI64(g.r, d), b[1] + h.PickI64(g.r, d)
+	}
+}
+
+func (g *gen) immQ(lo, hi int64, cls string) {
+	g.nq++
+	id := "q" + strconv.Itoa(g.nq)
+	g.op(fmt.Sprintf("open %s %d %d", id, lo, hi))
+	g.op("read " + id)
+	g.op("close " + id)
+	g.c.Count("imm@" + g.e.lastPt + "/" + cls)
+	g.c.NonTrivial("imm@" + g.e.lastPt + "/" + cls)
+}
+
 func (g *gen) newQ() (string, string) {
 	g.nq++
 	id := "q" + strconv.Itoa(g.nq)
@@ -665,6 +708,19 @@ func (g *gen) newQ() (string, string) {
 // atPosition places queries at the current parked position.
 func (g *gen) atPosition() {
 	pos := g.e.lastPt
+	if g.directed {
+		for _, b := range g.bands {
+			g.immQ(b[0], b[1], "oooband")
+			if g.r.Chance(40) {
+				lo, hi := g.bandRange(b)
+				g.immQ(lo, hi, "oooband")
+			}
+		}
+		if g.r.Chance(50) {
+			g.immQ(g.dmin-1, g.dmax+1, "all")
+		}
+		return
+	}
 	nImm := g.r.Intn(3)
 	for i := 0; i < nImm; i++ {
 		id, cls := g.newQ()
@@ -707,7 +763,7 @@ func (g *gen) runMaintJob(line string) {
 	// the job that concerns it must block until it is released below
 	g.e.lastPt = "idle"
 	for i := 0; i < 2; i++ {
-		if len(g.held) < 3 && g.r.Chance(45) {
+		if !g.directed && len(g.held) < 3 && g.r.Chance(45) {
 			id, cls := g.newQ()
 			g.held = append(g.held, heldQ{id: id, ttl: 5 + g.r.Intn(12)})
 			g.c.Count("held@idle/" + cls)
@@ -768,6 +824,15 @@ func genCase(c *h.Ctx, k int, fine bool) {
 	}
 	spc := h.Pick(r, []int{4, 8, 120})
 	oc := h.Pick(r, []int64{4, 4, 8, 32})
+	// bursts mode: a SMALL out-of-order window and the out-of-order samples appended in the middle of
+	// the in-order stream, in bursts of one chunk each, newest burst first — later m-mapped OOO chunks
+	// of a series then hold older samples than its first one — and the head advanced past the window
+	// afterwards, so that the GC's "headMaxt - window" fallback no longer covers them.
+	bursts := withOOO && r.Chance(45)
+	if bursts {
+		window = h.Pick(r, []int64{g.R / 2, g.R * 6 / 10, g.R})
+		oc = h.Pick(r, []int64{4, 4, 5, 8})
+	}
 	if g.op(fmt.Sprintf("cfg %d %d %d %d", g.R, window, spc, oc)) != "ok" {
 		return
 	}
@@ -811,9 +876,20 @@ func genCase(c *h.Ctx, k int, fine bool) {
 	}
 	sort.Slice(ts, func(i, j int) bool { return ts[i] < ts[j] })
 	smax := make([]int64, nser)
+	burstAt := int64(math.MaxInt64)
+	if bursts {
+		burstAt = t0 + span/2
+		if span-window > window/2 {
+			burstAt = t0 + r.Range(window/2, span-window)
+		}
+	}
 	for i, t := range ts {
 		if i > 0 && ts[i-1] == t {
 			continue
+		}
+		if t > burstAt {
+			burstAt = math.MaxInt64
+			g.putBursts(&v, smax, window, int(oc))
 		}
 		for s := 0; s < nser; s++ {
 			if t < sr[s].lo || t > sr[s].hi {
@@ -825,7 +901,7 @@ func genCase(c *h.Ctx, k int, fine bool) {
 			smax[s] = t
 		}
 	}
-	if withOOO {
+	if withOOO && !bursts {
 		// out-of-order data: odd offsets (never equal to an in-order timestamp), anywhere below each
 		// series' maximum, in bursts so that several m-mapped OOO chunks exist
 		n := 6 + r.Intn(30)
@@ -911,6 +987,246 @@ func genCase(c *h.Ctx, k int, fine bool) {
 	}
 }
 
+// bursts splits the odd-offset slots lo+5, lo+15, … < hi into nb contiguous groups of `size` timestamps and
+// returns them in ARRIVAL order: newest group first (desc) or shuffled; inside a group ascending or shuffled.
+func burstsOf(r *h.Rng, lo, hi int64, size, nb int, desc bool) [][]int64 {
+	var slots []int64
+	for t := lo/10*10 + 5; t < hi; t += 10 {
+		if t > lo {
+			slots = append(slots, t)
+		}
+	}
+	if size <= 0 {
+		return nil
+	}
+	if len(slots) < size*nb {
+		nb = len(slots) / size
+	}
+	free := len(slots) - size*nb
+	var groups [][]int64
+	pos := 0
+	for i := 0; i < nb; i++ {
+		if free > 0 {
+			gap := r.Intn(free/2 + 1)
+			free -= gap
+			pos += gap
+		}
+		groups = append(groups, append([]int64(nil), slots[pos:pos+size]...))
+		pos += size
+	}
+	shuffle := func(n int, swap func(i, j int)) {
+		for i := n - 1; i > 0; i-- {
+			swap(i, r.Intn(i+1))
+		}
+	}
+	if desc {
+		for i, j := 0, len(groups)-1; i < j; i, j = i+1, j-1 {
+			groups[i], groups[j] = groups[j], groups[i]
+		}
+	} else {
+		shuffle(len(groups), func(i, j int) { groups[i], groups[j] = groups[j], groups[i] })
+	}
+	for _, gr := range groups {
+		if r.Chance(30) {
+			shuffle(len(gr), func(i, j int) { gr[i], gr[j] = gr[j], gr[i] })
+		}
+	}
+	return groups
+}
+
+// putBursts appends, for every series that has in-order samples already, 2-4 out-of-order bursts inside the
+// out-of-order window behind the head's current maximum (and below the series' own maximum), each filling
+// one OOO chunk, plus sometimes a short tail that stays in the OOO head chunk.
+func (g *gen) putBursts(v *int64, smax []int64, window int64, capMax int) {
+	r := g.r
+	headMax := int64(math.MinInt64)
+	for _, m := range smax {
+		headMax = max(headMax, m)
+	}
+	for s := range smax {
+		lo := max(headMax-window, 0)
+		hi := smax[s]
+		if hi-lo < 30 {
+			continue
+		}
+		size := capMax
+		if r.Chance(25) {
+			size = capMax + 1 // a burst straddling two chunks
+		}
+		groups := burstsOf(r, lo, hi, size, 2+r.Intn(3), r.Chance(65))
+		if len(groups) > 0 && r.Chance(60) {
+			// the tail: 1..cap-1 samples at the top or the bottom of the window; the first of them m-maps the last burst
+			used := map[int64]bool{}
+			for _, gr := range groups {
+				for _, t := range gr {
+					used[t] = true
+				}
+			}
+			var tail []int64
+			for t := lo/10*10 + 5; t < hi && len(tail) < 1+r.Intn(capMax); t += 10 {
+				if t > lo && !used[t] {
+					tail = append(tail, t)
+				}
+			}
+			if r.Chance(60) {
+				tail = nil
+				for t := (hi-1)/10*10 + 5; t > lo && len(tail) < 1+r.Intn(capMax); t -= 10 {
+					if t < hi && !used[t] {
+						tail = append(tail, t)
+					}
+				}
+			}
+			if len(tail) > 0 {
+				groups = append(groups, tail)
+			}
+		}
+		for _, gr := range groups {
+			blo, bhi := gr[0], gr[0]
+			for _, t := range gr {
+				*v++
+				g.op(fmt.Sprintf("put %d %d %d 1", s, t, *v))
+				g.dmin = min(g.dmin, t)
+				blo, bhi = min(blo, t), max(bhi, t)
+			}
+			g.bands = append(g.bands, [2]int64{blo, bhi})
+		}
+	}
+}
+
+// genDirected: the boundary histories of the published out-of-order bounds (Head.MinOOOTime/MaxOOOTime,
+// recomputed by the head GC from the surviving OOO chunks). One or two series; OOO bursts of exactly one
+// chunk each appended newest-first while they are inside the OOO window; the head then advances far
+// beyond the window; a compaction truncates the in-order head (GC) before the OOO head is compacted, and
+// at EVERY protocol point each burst's range is queried on its own.
+//
+//	variant 0: two m-mapped chunks (newest first) + a newer sample in the OOO head chunk; db.Compact
+//	variant 1: two series, the first with its chunks oldest-first, the second newest-first (the overall
+//	           minimum sits in the second series' LAST m-mapped chunk); db.Compact
+//	variant 2: three m-mapped chunks, the oldest in the middle/last; CompactHead, queries while idle
+//	           (OOO block not written for an arbitrarily long time), then CompactOOOHead
+//	variant 3: the oldest samples only in the OOO HEAD chunk (never m-mapped before the snapshot), the
+//	           newest only in the first m-mapped chunk; db.Compact
+func genDirected(c *h.Ctx, k int) {
+	r := c.Rng.Fork()
+	e := newEnv()
+	defer os.RemoveAll(e.dir)
+	defer e.finish()
+	g := &gen{c: c, e: e, r: r, pts: map[string]bool{}, directed: true}
+	c.Case(fmt.Sprintf("d%d-%d", c.Seed, k))
+	variant := k % 4
+	g.R = 1000
+	capMax := 4
+	window := int64(600)
+	stepT := int64(50)
+	if k >= 4 {
+		capMax = h.Pick(r, []int{4, 4, 5, 6})
+		window = h.Pick(r, []int64{500, 600, 700, 900})
+		stepT = h.Pick(r, []int64{50, 100, 70})
+	}
+	spc := h.Pick(r, []int{4, 8, 120})
+	if g.op(fmt.Sprintf("cfg %d %d %d %d", g.R, window, spc, capMax)) != "ok" {
+		return
+	}
+	nser := 1
+	if variant == 1 {
+		nser = 2
+	}
+	t1 := int64(900)
+	if k >= 4 {
+		t1 = 700 + 10*r.Range(0, 40)
+	}
+	v := int64(0)
+	smax := make([]int64, nser)
+	inorder := func(from, to int64) {
+		for t := from; t <= to; t += stepT {
+			for s := 0; s < nser; s++ {
+				v++
+				g.op(fmt.Sprintf("put %d %d %d 0", s, t, v))
+				smax[s] = t
+				g.dmax = max(g.dmax, t)
+			}
+		}
+	}
+	inorder(0, t1)
+	lo := max(smax[0]-window, 0)
+	for s := 0; s < nser; s++ {
+		nb := 2
+		if variant == 2 {
+			nb = 3
+		}
+		groups := burstsOf(r, lo, smax[s], capMax, nb, true)
+		if len(groups) < 2 {
+			return
+		}
+		for _, gr := range groups {
+			sort.Slice(gr, func(i, j int) bool { return gr[i] < gr[j] })
+		}
+		switch {
+		case variant == 1 && s == 0:
+			groups[0], groups[len(groups)-1] = groups[len(groups)-1], groups[0] // oldest first
+		case variant == 2 && r.Chance(50):
+			groups[0], groups[1] = groups[1], groups[0] // middle, newest, oldest
+		}
+		// the tail m-maps the last burst and stays in the OOO head chunk
+		used := map[int64]bool{}
+		for _, gr := range groups {
+			for _, t := range gr {
+				used[t] = true
+			}
+		}
+		var tail []int64
+		if variant == 3 {
+			// oldest of all, below every burst
+			for t := lo/10*10 + 5; t < smax[s] && len(tail) < 2; t += 10 {
+				if t > lo && !used[t] {
+					tail = append(tail, t)
+				}
+			}
+		} else {
+			for t := (smax[s]-1)/10*10 + 5; t > lo && len(tail) < 1; t -= 10 {
+				if t < smax[s] && !used[t] {
+					tail = append(tail, t)
+				}
+			}
+		}
+		if len(tail) > 0 {
+			groups = append(groups, tail)
+		}
+		for _, gr := range groups {
+			blo, bhi := gr[0], gr[0]
+			for _, t := range gr {
+				v++
+				g.op(fmt.Sprintf("put %d %d %d 1", s, t, v))
+				g.dmin = min(g.dmin, t)
+				blo, bhi = min(blo, t), max(bhi, t)
+			}
+			g.bands = append(g.bands, [2]int64{blo, bhi})
+		}
+	}
+	// the head moves on: compactable ([0,R) becomes a block) and headMaxt - window above every OOO sample
+	t2 := int64(2000)
+	if k >= 4 {
+		t2 = 1900 + 10*r.Range(0, 40)
+	}
+	inorder((t1/stepT+1)*stepT, t2)
+	g.immQ(g.dmin-1, g.dmax+1, "all")
+	var jobs []string
+	if variant == 2 {
+		jobs = []string{fmt.Sprintf("maint head 0 %d", g.R-1), "maint ooo"}
+	} else {
+		jobs = []string{"maint compact"}
+	}
+	for _, j := range jobs {
+		g.runMaintJob(j)
+		g.e.lastPt = "idle"
+		g.atPosition()
+	}
+	g.op(fmt.Sprintf("open qa %d %d", g.dmin-1, g.dmax+1))
+	g.op("read qa")
+	g.op("close qa")
+	c.Count("cases:directed-ooo-bounds")
+}
+
 // finePoints reports whether the checkout has the verifAt call sites (fixes/hooks-C06.patch): a
 // throw-away head compaction is watched for the point `head.written`.
 func finePoints() bool {
@@ -945,6 +1261,14 @@ func main() {
 		return
 	}
 	fine := finePoints()
+	// directed cases first: 4 in the quick tier, 16 (with varied parameters) in the thorough one
+	nd := 4
+	if c.N >= 10 {
+		nd = 16
+	}
+	for k := 0; k < nd; k++ {
+		genDirected(c, k)
+	}
 	for k := 0; k < c.N; k++ {
 		genCase(c, k, fine)
 	}
